@@ -12,7 +12,7 @@ if [ "$PATCH" != "/dev/null" ]; then git -C $S/repo apply "$PATCH" || { echo "pa
 rsync -a --delete --exclude 'target*' /verif/engine/ $S/engine/
 find $S/engine -name Cargo.toml | xargs sed -i "s#\"/repo/#\"$S/repo/#g"
 cp /verif/known_findings.json $S/vd/
-( cd $S/engine && CARGO_TARGET_DIR=$S/target cargo build --release --offline -q -p $CRATE 2>&1 | tail -5 ) || exit 3
+( set -o pipefail; cd $S/engine && CARGO_TARGET_DIR=$S/target cargo build --release --offline -q -p $CRATE 2>&1 | tail -5 ) || { echo "engine build failed (patched tree does not compile with the engine?)"; exit 3; }
 cd $S/vd && VERIF_DIR=$S/vd timeout 3000 $S/target/release/$CRATE $ID --tier $TIER > $S/vd/last.log 2>&1
 RC=$?
 grep -E "^(VIOLATION|KNOWN-FINDING|  fingerprint|  message|C[0-9]+ tier|CAP|MACHINERY)" $S/vd/last.log | head -20
